@@ -38,6 +38,7 @@ import (
 	"os"
 	"reflect"
 	"runtime/debug"
+	"runtime/pprof"
 	"sort"
 	"strings"
 
@@ -48,7 +49,14 @@ import (
 	"verif/harness/gen"
 )
 
-func main() { core.Main("C12", run, replay) }
+func main() {
+	if p := os.Getenv("C12_PROF"); p != "" {
+		f, _ := os.Create(p)
+		pprof.StartCPUProfile(f)
+		defer pprof.StopCPUProfile()
+	}
+	core.Main("C12", run, replay)
+}
 
 // modelMode selects the model the implementation is compared with: "fixed"
 // (convert_columns) or "pinned" (the closest-sibling heuristic of the tree
@@ -706,6 +714,30 @@ func safeCanonRow(r parquet.Row) string {
 	return strings.Join(parts, " ")
 }
 
+// sameRow: the rows are equal value for value (column, levels, null or the
+// same bytes): then their canonical texts are equal.  A shortcut only: false
+// sends the caller to the comparison of the texts.
+func sameRow(a, b parquet.Row) (same bool) {
+	if len(a) != len(b) {
+		return false
+	}
+	defer func() {
+		if recover() != nil {
+			same = false
+		}
+	}()
+	for i := range a {
+		x, y := a[i], b[i]
+		if x.Column() != y.Column() || x.RepetitionLevel() != y.RepetitionLevel() || x.DefinitionLevel() != y.DefinitionLevel() || x.IsNull() != y.IsNull() {
+			return false
+		}
+		if !x.IsNull() && !bytes.Equal(x.Bytes(), y.Bytes()) {
+			return false
+		}
+	}
+	return true
+}
+
 type sliceReader struct {
 	rows   []parquet.Row
 	i      int
@@ -794,6 +826,9 @@ func compareRows(b *built, got []parquet.Row) (class, what string) {
 	// by one on an added column
 	for _, wantAdded := range []bool{false, true} {
 		for i := range got {
+			if sameRow(b.want[i], got[i]) {
+				continue
+			}
 			w, g := safeCanonRow(b.want[i]), safeCanonRow(got[i])
 			if w == g {
 				continue
@@ -1030,62 +1065,6 @@ var paths = []pathFn{
 	}},
 }
 
-// columnChunkRows reads the column-chunk view of the converted row groups and
-// regroups the values into rows (a value with repetition level 0 starts a row).
-func columnChunkRows(b *built, data []byte) ([]parquet.Row, error) {
-	f, err := openFile(data)
-	if err != nil {
-		return nil, err
-	}
-	conv, err := parquet.Convert(b.ts, f.Schema())
-	if err != nil {
-		return nil, err
-	}
-	var out []parquet.Row
-	for _, rg := range f.RowGroups() {
-		crg := parquet.ConvertRowGroup(rg, conv)
-		nrows := int(crg.NumRows())
-		rows := make([]parquet.Row, nrows)
-		for ci, cc := range crg.ColumnChunks() {
-			pages := cc.Pages()
-			ri := -1
-			for guard := 0; guard < 1<<16; guard++ {
-				p, err := pages.ReadPage()
-				if err != nil {
-					break
-				}
-				vr := p.Values()
-				buf := make([]parquet.Value, 64)
-				for g2 := 0; g2 < 1<<16; g2++ {
-					n, err := vr.ReadValues(buf)
-					for _, v := range buf[:n] {
-						if v.RepetitionLevel() == 0 {
-							ri++
-						}
-						if ri < 0 || ri >= nrows {
-							pages.Close()
-							return nil, fmt.Errorf("column %d holds values of more than %d rows", ci, nrows)
-						}
-						if v.Column() != ci {
-							pages.Close()
-							return nil, fmt.Errorf("column chunk %d returned a value of column %d", ci, v.Column())
-						}
-						rows[ri] = append(rows[ri], v.Clone())
-					}
-					if err != nil || n == 0 {
-						break
-					}
-				}
-				parquet.Release(p)
-			}
-			pages.Close()
-		}
-		// values were appended column by column: already in column order per row
-		out = append(out, rows...)
-	}
-	return out, nil
-}
-
 // check runs one case through every path.  Returns false when something was reported.
 func check(c *core.Ctx, cs *c12Case) (out *findings, bucket string, nontrivial bool) {
 	out = &findings{}
@@ -1194,6 +1173,10 @@ func check(c *core.Ctx, cs *c12Case) (out *findings, bucket string, nontrivial b
 			if errors.As(err, &he) {
 				cl = "row-history-differs"
 			}
+			var ce *classedError
+			if errors.As(err, &ce) {
+				cl = ce.class
+			}
 			out.viol(cl, p.name+": "+core.Trunc(err.Error(), 700)+info)
 			ok = false
 			continue
@@ -1255,25 +1238,7 @@ func check(c *core.Ctx, cs *c12Case) (out *findings, bucket string, nontrivial b
 	if b.nRebuilt > 0 || b.nWidened > 0 {
 		return out, bucket, nontrivial
 	}
-	var got []parquet.Row
-	if err := guarded(func() error {
-		var e error
-		got, e = columnChunkRows(b, data)
-		return e
-	}); err != nil {
-		cl := "converted-column-chunks-error"
-		if nAdded > 0 {
-			cl = knownChunkView
-		}
-		out.viol(cl, "ConvertRowGroup.ColumnChunks: "+core.Trunc(err.Error(), 300)+info)
-	} else if cl, what := compareRows(b, canonVariants(b.pairs, b.want, got)); cl != "" {
-		if k := chunkViewClass(cl, nAdded); k != cl {
-			cl = k
-		} else {
-			cl = "converted-column-chunks-" + cl
-		}
-		out.viol(cl, "ConvertRowGroup.ColumnChunks: "+what+info)
-	}
+	checkChunkView(c, out, b, data, cs, nAdded, srcTok, tgtTok, info)
 	return out, bucket, nontrivial
 }
 
@@ -1397,9 +1362,24 @@ func shrink(c *core.Ctx, cs c12Case, class string) c12Case {
 }
 
 func run(c *core.Ctx) {
-	c.Res.Rule = "source schemas from harness/gen (required/optional/repeated leaves of every physical type, groups, LIST groups, depth <= 3) x edit scripts of 0..6 steps (delete a field, permute the fields of a group, add an optional/required/repeated leaf or group of depth <= 2, read a required leaf / group / LIST / variant of the source as an optional one [widening; now and then all fields of the widened group are replaced], at any depth incl. inside LIST groups and next to their element) x 0..12 rows with null runs and empty/long lists; every pair runs through Convert+conversion.Convert, ConvertRowReader, ConvertRowGroup.Rows, NewGenericReader(file, schema), NewReader(file, schema), CopyRows (file reader and plain row reader into a writer with the target schema, read back), MergeRowGroups(schema), and the column-chunk view of converted row groups; each must equal the shredding of the projected value trees, in number and order; in a quarter of the pairs the source holds 1-2 VARIANT columns (required/optional/repeated, in any group) stored unshredded or shredded with a declared type (bool/int32/int64/double/string/bytes/date leaf, object, array, nested to depth 2) that the target declares unshredded (reconstruction) or with the same layout, the edit script deleting / permuting / adding siblings before and after them; the file rows are the shredding (harness implementation of VariantShredding.md) of generated logical values, the expected target pair is any encoding that decodes to the same logical value, at exactly the expected column, place and levels; NewGenericReader(file, schema) and NewReader(file, schema) are also driven through ReadRows(k)/SeekToRow/Reset histories, and so are the conversion wrappers themselves: ConvertRowReader over rows in memory or over the rows of the file (forward SeekToRow to arbitrary, also unaligned rows, then >= 1 batches, then read to the end) and ConvertRowGroup(rg, conv).Rows() of every row group (SeekToRow in both directions), three histories in four with ALL reads going into ONE []Row buffer of 1..5 rows (fresh buffers otherwise), every row compared with the expected row of its position; plus row groups that DECLARE an order: the source rows split into 1-3 row groups, each sorted by 1-3 non-repeated leaf columns (ascending/descending, nulls first/last) and declaring so (parquet.Buffer or file row group), edit scripts biased towards deleting sorting columns or their ancestors; every ConvertRowGroup result must tell the truth: NumRows, Schema, one column chunk per target column with its index and kind, rows = projected rows in source order, every declared sorting column a column of the target and the rows IN the declared order (and = the model's kept prefix of the source's sorting columns); MergeRowGroups(inputs, target schema), MergeRowGroups(converted inputs, target schema) and MergeRowGroups(converted inputs) without a sorting option: same rows, in the order the merged row group declares, the inputs one after the other when it declares none; plus call histories on one deprecated parquet.Reader: source and 2-3 edited views rendered as Go struct types (reflect.StructOf), Read(&view_k) / ReadRows / SeekToRow / Reset sequences of 2-8 calls, files written with the generated schema or with the schema of the source struct type (identity shortcut), one or two row groups, reader opened plain or with a view schema, every value read deconstructed and compared with the shredding of the projection of the row at the reader position; plus a catalogue of (T1, T2) struct pairs through parquet.Write / parquet.Read[T2] and Read(k)/SeekToRow/Reset histories on one GenericReader[T2], incl. files with a shredded variant column (5 declared types, top level and in a repeated group) read into structs that declare it plain and add columns before/after/around it, or hold it in a group that is a struct in the file and a pointer in the struct read, the variant itself null in a third of the rows; plus targets in which a same-named node changes kind (must be rejected). Non-trivial = at least one edit and one row (histories: at least two distinct views read); distinct by the JSON of the case."
+	c.Res.Rule = "source schemas from harness/gen (required/optional/repeated leaves of every physical type, groups, LIST groups, depth <= 3) x edit scripts of 0..6 steps (delete a field, permute the fields of a group, add an optional/required/repeated leaf or group of depth <= 2, read a required leaf / group / LIST / variant of the source as an optional one [widening; now and then all fields of the widened group are replaced], at any depth incl. inside LIST groups and next to their element) x 0..12 rows with null runs and empty/long lists; every pair runs through Convert+conversion.Convert, ConvertRowReader, ConvertRowGroup.Rows, NewGenericReader(file, schema), NewReader(file, schema), CopyRows (file reader and plain row reader into a writer with the target schema, read back), MergeRowGroups(schema), and the column-chunk view of converted row groups; each must equal the shredding of the projected value trees, in number and order; in a quarter of the pairs the source holds 1-2 VARIANT columns (required/optional/repeated, in any group) stored unshredded or shredded with a declared type (bool/int32/int64/double/string/bytes/date leaf, object, array, nested to depth 2) that the target declares unshredded (reconstruction) or with the same layout, the edit script deleting / permuting / adding siblings before and after them; the file rows are the shredding (harness implementation of VariantShredding.md) of generated logical values, the expected target pair is any encoding that decodes to the same logical value, at exactly the expected column, place and levels; NewGenericReader(file, schema) and NewReader(file, schema) are also driven through ReadRows(k)/SeekToRow/Reset histories, and so are the conversion wrappers themselves: ConvertRowReader over rows in memory or over the rows of the file (forward SeekToRow to arbitrary, also unaligned rows, then >= 1 batches, then read to the end) and ConvertRowGroup(rg, conv).Rows() of every row group (SeekToRow in both directions), three histories in four with ALL reads going into ONE []Row buffer of 1..5 rows (fresh buffers otherwise), every row compared with the expected row of its position; plus row groups that DECLARE an order: the source rows split into 1-3 row groups, each sorted by 1-3 non-repeated leaf columns (ascending/descending, nulls first/last) and declaring so (parquet.Buffer or file row group), edit scripts biased towards deleting sorting columns or their ancestors; every ConvertRowGroup result must tell the truth: NumRows, Schema, one column chunk per target column with its index and kind, rows = projected rows in source order, every declared sorting column a column of the target and the rows IN the declared order (and = the model's kept prefix of the source's sorting columns); MergeRowGroups(inputs, target schema), MergeRowGroups(converted inputs, target schema) and MergeRowGroups(converted inputs) without a sorting option: same rows, in the order the merged row group declares, the inputs one after the other when it declares none; plus call histories on one deprecated parquet.Reader: source and 2-3 edited views rendered as Go struct types (reflect.StructOf), Read(&view_k) / ReadRows / SeekToRow / Reset sequences of 2-8 calls, files written with the generated schema or with the schema of the source struct type (identity shortcut), one or two row groups, reader opened plain or with a view schema, every value read deconstructed and compared with the shredding of the projection of the row at the reader position; plus a catalogue of (T1, T2) struct pairs through parquet.Write / parquet.Read[T2] and Read(k)/SeekToRow/Reset histories on one GenericReader[T2], incl. files with a shredded variant column (5 declared types, top level and in a repeated group) read into structs that declare it plain and add columns before/after/around it, or hold it in a group that is a struct in the file and a pointer in the struct read, the variant itself null in a third of the rows; plus, on every pair, the SOURCE KIND and the REPETITION of the read: the source rows held by a RowBuffer[any] / Buffer / GenericBuffer[any] / the row group(s) of the file / MultiRowGroup or MergeRowGroups(no sorting columns) of two in-memory buffers of different kinds, taken through the target 2-3 times by CopyRows into a Buffer / RowBuffer[any] / file writer of the target schema, ConvertRowGroup(src).Rows(), ConvertRowReader(src.Rows()), MergeRowGroups({src}, target), NewGenericRowGroupReader[any](src, target), every pass compared with the expected rows and the source read plainly afterwards compared with the rows written to it; the column-chunk view of the converted row groups (file row groups, Buffer, GenericBuffer[any], RowBuffer[any] sources; values read 1..4096 at a time) examined chunk by chunk and page by page: Column() of chunks, pages and values, Page.Slice(i, j) of the rows inside a random range, of a random span and a slice of that slice against the rows of the page, page counts against the source page, Pages().SeekToRow(r), and the range of rows collected through Slice against the model (Convert/Chunks.v chunk_views) for the columns the conversion copies; plus LARGE row groups: 2600-4000 rows sorted by a kept non-repeated column of a kind with mostly distinct values, dealt to two files (the first and the last 1300-1700 rows to one input each, 0/40/400 rows in between alternately; pages of 256/512/1024 bytes; the second file optionally written with the target schema), MergeRowGroups(inputs, target, sorting columns) / (inputs, target) / (converted inputs, target) must hold the projected rows in the declared order, ConvertRowGroup.Rows, CopyRows and NewGenericReader(file, schema) over the first file too, and its column-chunk view read 1025/3000/4096 values at a time; plus targets in which a same-named node changes kind (must be rejected). Non-trivial = at least one edit and one row (histories: at least two distinct views read); distinct by the JSON of the case."
 	if modelMode != "fixed" {
 		c.Note("model selected by C12_MODEL=%s", modelMode)
+	}
+	// debugging aid: C12_ONLY=large|sorted|histories|typed runs one scenario alone
+	switch os.Getenv("C12_ONLY") {
+	case "large":
+		largeCases(c)
+		return
+	case "sorted":
+		sortedCases(c)
+		return
+	case "histories":
+		histories(c)
+		return
+	case "typed":
+		typed(c)
+		return
 	}
 	corpus(c)
 	n := c.N(8000, 30000)
@@ -1442,6 +1422,7 @@ func run(c *core.Ctx) {
 	}
 	histories(c)
 	sortedCases(c)
+	largeCases(c)
 	typed(c)
 	writeVm(c, vm)
 }
@@ -1768,6 +1749,11 @@ func replay(c *core.Ctx, raw json.RawMessage) {
 	var sc sortedCase
 	if err := json.Unmarshal(raw, &sc); err == nil && sc.Kind == "sorted" {
 		runSortedCase(c, sc, true)
+		return
+	}
+	var lc largeCase
+	if err := json.Unmarshal(raw, &lc); err == nil && lc.Kind == "large" {
+		runLargeCase(c, lc, true)
 		return
 	}
 	var cs c12Case
